@@ -118,7 +118,7 @@ type resumeObs struct {
 
 // scriptedResume sends a hand-built resumption request, optionally keys its stream, sends one
 // application message and reads the server's answer.
-func scriptedResume(own *security.SessionCache, sid string, want bool, keyMode string, key []byte, fromAddr string) resumeObs {
+func scriptedResume(own *security.SessionCache, sid string, want bool, keyMode string, key []byte, fromAddr string, requireAuth bool) resumeObs {
 	var ob resumeObs
 	ca, cb := bufpipe.Pair(fromAddr, "10.0.0.2:9618")
 	ctx, cancel := context.WithTimeout(context.Background(), 600*time.Millisecond)
@@ -134,6 +134,9 @@ func scriptedResume(own *security.SessionCache, sid string, want bool, keyMode s
 	go func() {
 		defer wg.Done()
 		sc := *srvConf(true)
+		if !requireAuth {
+			sc.Authentication = security.SecurityOptional
+		}
 		sc.SessionCache = own
 		a := security.NewAuthenticator(&sc, sst)
 		sneg, serr = a.ServerHandshake(ctx)
@@ -249,7 +252,7 @@ func mutateSid(sid string, how string) string {
 }
 
 func runResume(c *Ctx) error {
-	c.Res.Rule = "histories over establish(keyed/keyless) / honest resume / expire (virtual time: entry re-stored with a past expiry) / renew / invalidate / gc on a real server cache (a third of the sessions established under an identity-mapping PostAuthPolicy; after each successful resumption the remaining lifetime of the entry is compared: it must be the lease) (a third of them against a server with its own isolated SessionCache plus the global fallback, with ostore/oinvalidate on the own cache), with scripted resumption requests: right id + right key, right id + wrong key, right id + no key, unknown id, id differing by one character, truncated id, with and without ResumeResponse, from another address; and byte-for-byte replays (whole, request only, truncated) of either direction of a recorded resumed connection into a fresh connection; distinct by history; non-trivial = the request differs from the legitimate one or the history has ≥2 ops"
+	c.Res.Rule = "histories over establish(keyed/keyless) / honest resume / expire (virtual time: entry re-stored with a past expiry) / renew / invalidate / gc on a real server cache (a third of the sessions established under an identity-mapping PostAuthPolicy; after each successful resumption the remaining lifetime of the entry is compared: it must be the lease) (a third of them against a server with its own isolated SessionCache plus the global fallback, with ostore/oinvalidate on the own cache), with scripted resumption requests against a server whose policy REQUIRES authentication or leaves it OPTIONAL (a quarter of the sessions were established without authentication): right id + right key, right id + wrong key, right id + no key, unknown id, id differing by one character, truncated id, with and without ResumeResponse, from another address; and byte-for-byte replays (whole, request only, truncated) of either direction of a recorded resumed connection into a fresh connection; distinct by history; non-trivial = the request differs from the legitimate one or the history has ≥2 ops"
 	var cases []Case
 	n := c.Pick(150, 2500)
 	user := ""
@@ -269,7 +272,21 @@ func runResume(c *Ctx) error {
 			}
 			c.Count("server:identity-mapped")
 		}
-		p := realPair(cliConf(ccache, ""), estConf, "10.0.0.1:1111")
+		// a quarter of the sessions are established WITHOUT authentication (the client refuses it, the
+		// server does not insist): such a session must not be resumed by a server whose policy
+		// requires authentication
+		authed := c.Rng.Intn(4) != 0
+		estCli := cliConf(ccache, "")
+		if !authed {
+			estConf.Authentication = security.SecurityOptional
+			estCli.Authentication = security.SecurityNever
+			c.Count("session:unauthenticated")
+		}
+		p := realPair(estCli, estConf, "10.0.0.1:1111")
+		if p.cerr == nil && p.serr == nil && p.sneg.Authentication != authed {
+			c.Res.Notes = append(c.Res.Notes, "resume: establishing handshake authenticated/unauthenticated contrary to plan")
+			authed = p.sneg.Authentication
+		}
 		if p.cerr != nil || p.serr != nil {
 			c.Res.Notes = append(c.Res.Notes, fmt.Sprintf("resume: establishing handshake failed: %v / %v", p.cerr, p.serr))
 			p.close()
@@ -284,7 +301,7 @@ func runResume(c *Ctx) error {
 		if keyed {
 			ks, cr = "1", "AES"
 		}
-		log(fmt.Sprintf("sstore %s key=%s crypto=%s user=%s auth=1 exp=4600 lease=1800", sid, ks, cr, strOrTilde(user)), "ok")
+		log(fmt.Sprintf("sstore %s key=%s crypto=%s user=%s auth=%s exp=4600 lease=1800", sid, ks, cr, strOrTilde(user), b01(authed)), "ok")
 		if keyed != p.cst.IsEncrypted() {
 			c.Res.Notes = append(c.Res.Notes, "resume: keyed expectation not met")
 		}
@@ -318,7 +335,7 @@ func runResume(c *Ctx) error {
 					}
 				}
 				if stored {
-					log(fmt.Sprintf("ostore %s key=%s crypto=%s user=%s auth=1 exp=4600 lease=1800", sid, ks, cr, strOrTilde(user)), "ok")
+					log(fmt.Sprintf("ostore %s key=%s crypto=%s user=%s auth=%s exp=4600 lease=1800", sid, ks, cr, strOrTilde(user), b01(authed)), "ok")
 					aliveOwn = true
 				}
 			case 10:
@@ -349,15 +366,20 @@ func runResume(c *Ctx) error {
 				keyMode := pick(c, []string{"right", "right", "wrong", "none"})
 				from := pick(c, []string{"10.0.0.1:1111", "10.9.9.9:4242"})
 				rsid := mutateSid(sid, how)
-				ob := scriptedResume(own, rsid, want, keyMode, key, from)
+				requireAuth := c.Rng.Intn(3) != 0 // the resuming server's policy: REQUIRED or OPTIONAL
+				ob := scriptedResume(own, rsid, want, keyMode, key, from, requireAuth)
 				var r string
 				if ob.ok {
 					r = fmt.Sprintf("ok reply=%s user=%s auth=%s enc=%s", ob.reply, strOrTilde(ob.user), b01(ob.auth), b01(ob.enc))
 				} else {
 					r = fmt.Sprintf("ok reply=%s refused", ob.reply)
 				}
-				op := fmt.Sprintf("sresume %s want=%s", rsid, b01(want))
+				op := fmt.Sprintf("sresume %s want=%s req=%s", rsid, b01(want), b01(requireAuth))
 				log(op, r)
+				if ob.ok && requireAuth && !authed {
+					c.Violate(Violation{Property: "C03", Key: "C03:resumed-unauthenticated-under-required", What: "a server whose policy marks authentication REQUIRED returned success for a resumed session that was established without authentication",
+						Ops: append([]string{}, ops...), Expected: "refused (SID_NOT_FOUND), the client comes back with a full handshake", Observed: r})
+				}
 				if how != "right" || keyMode != "right" {
 					nontrivial = true
 				}
@@ -384,7 +406,7 @@ func runResume(c *Ctx) error {
 				if ob.ok && ob.leak {
 					viol("answer-in-clear", "data sent on a resumed connection travelled in clear", "sealed", "cleartext on the wire")
 				}
-				if ob.ok && how == "right" && (alive || aliveOwn) && (ob.user != user || !ob.auth) {
+				if ob.ok && how == "right" && (alive || aliveOwn) && (ob.user != user || ob.auth != authed) {
 					viol("identity-lost", "resumption did not restore the identity / authentication status of the original handshake", user+"/true", fmt.Sprintf("%s/%v", ob.user, ob.auth))
 				}
 				if ob.ok && how == "right" {
@@ -399,7 +421,7 @@ func runResume(c *Ctx) error {
 			}
 		}
 		// honest resumption through the real client, when the session should still be usable
-		if alive && keyed && c.Rng.Intn(2) == 0 {
+		if alive && keyed && authed && c.Rng.Intn(2) == 0 {
 			sc2 := srvConf(true)
 			sc2.SessionCache = own
 			p2 := realPair(cliConf(ccache, ""), sc2, "10.0.0.1:1111")
